@@ -360,9 +360,11 @@ func RunConc(cfg ConcCfg, t *Trace, seg int) {
 		}
 	}
 	if cfg.Access {
-		inode.VerifAccess = nil
+		// stop recording BEFORE the goroutine ids are switched off: a background shrinker may still be producing events
+		evsLk := Mon.Record(false)
 		Mon.WantG = false
-		for _, e := range Mon.Record(false) {
+		inode.VerifAccess = nil
+		for _, e := range evsLk {
 			if e.Ev == "got" || e.Ev == "rel" || e.Ev == "acc" {
 				t.Emit(map[string]interface{}{"ev": "lk", "k": e.Ev, "g": e.G, "inum": int(e.Inum), "what": e.What, "txn": e.Txn})
 			}
